@@ -90,3 +90,95 @@ def neighbourhood(ctx):
     for m in mism[:3]:
         print("GROWTH-MISMATCH module=Neighbourhood %s" % m)
     return mism
+
+
+def _variant_record(item):
+    """demos/zmethod.py and demos/fusion.py compositions (without argparse / plotting / evaluation)."""
+    import kneeliverse.postprocessing as pp
+    import kneeliverse.clustering as clustering
+    import kneeliverse.knee_ranking as kr
+    import kneeliverse.rdp as rdp
+    import kneeliverse.zmethod as zmethod
+    from harness import monitor, simpl
+    from harness.props import c08
+    cid, P, variant, cfg = item
+    P = np.asarray(P, float)
+    n = len(P)
+    ev0 = simpl.call(P, {"f": "rdp", "t": cfg["r"], "distance": "shortest", "cost": "smape"}, wall=60)
+    events = [{"stage": "simplify", "outcome": ev0["outcome"], "out": ev0.get("reduced", []), "same": []}]
+    order = ["simplify", "detect", "map"] if variant == "zmethod" else ["simplify", "detect", "worst", "corner", "cluster", "map"]
+    case = {"id": cid, "n": n, "reduced": [0, n - 1], "hred": [0, 0], "horig": c08._exact_ranks(P[:, 1]), "events": events,
+            "order": order, "detmax": 0}
+    if ev0["outcome"] != "returned" or not ev0.get("removed"):
+        return case
+    S = ev0["reduced"]
+    reduced, removed = np.array(S), np.array(ev0["removed"])
+    PR = P[reduced]
+    case["reduced"], case["hred"], case["detmax"] = S, c08._exact_ranks(PR[:, 1]), len(S) - 1
+
+    def stage(name, fn, args, kw=None):
+        o, val, _ = monitor.call(fn, args, kw or {}, budget=4000 * n + 40000, wall=60)
+        e = {"stage": name, "outcome": o, "out": [], "same": []}
+        events.append(e)
+        return o == "returned", val, e
+
+    if variant == "zmethod":
+        x_max = int(P[:, 0].max())
+        y_range = [float(P[:, 1].max()), float(P[:, 1].min())]
+        ok, k, e = stage("detect", zmethod.knees, (PR,), {"dx": cfg["dx"], "dy": cfg["dy"], "dz": cfg["dz"], "x_max": x_max, "y_range": y_range})
+        if not ok:
+            return case
+        k = np.asarray(k).astype(int)
+        k = k[k > 0]
+        e["out"] = c08._ints(k)
+        last = k
+    else:
+        k = np.arange(1, len(reduced))
+        events.append({"stage": "detect", "outcome": "returned", "out": c08._ints(k), "same": []})
+        ok, k1, e = stage("worst", pp.filter_worst_knees, (PR, k))
+        if not ok:
+            return case
+        e["out"] = c08._ints(k1)
+        ok, k2, e = stage("corner", pp.filter_corner_knees, (PR, k1, cfg["c"]))
+        if not ok:
+            return case
+        e["out"] = c08._ints(k2)
+        ok, k3, e = stage("cluster", pp.filter_clusters, (PR, k2, getattr(clustering, cfg["linkage"]), cfg["t"], kr.ClusterRanking(cfg["mode"])))
+        if not ok:
+            return case
+        e["out"] = c08._ints(k3)
+        last = k3
+    ok, k4, e = stage("map", rdp.mapping, (last, reduced, removed))
+    if ok:
+        e["out"] = c08._ints(k4)
+        li = c08._ints(last)
+        e["same"] = [bool(0 <= o < n and P[o].tobytes() == PR[li[j]].tobytes()) for j, o in enumerate(e["out"])]
+    return case
+
+
+def pipeline_variants(ctx):
+    """the Z-method and 'fusion' demo pipelines judged by the same Trace_Pipeline invariants (with their own stage order)."""
+    from harness import curves
+    rng = ctx.rng
+    items = []
+    for k in range(40 if ctx.quick else 400):
+        P = curves.mrc_curve(rng, 30, 200)
+        if k % 2 == 0:
+            items.append(("vz%d" % k, P.tolist(), "zmethod", {"r": rng.choice([0.01, 0.005]), "dx": rng.choice([0.05, 0.1]), "dy": rng.choice([0.05, 0.1]), "dz": rng.choice([0.1, 0.3])}))
+        else:
+            items.append(("vf%d" % k, P.tolist(), "fusion", {"r": rng.choice([0.01, 0.005]), "c": 0.33, "t": rng.choice([0.05, 0.1]),
+                                                              "linkage": rng.choice(["single_linkage", "average_linkage"]),
+                                                              "mode": rng.choice(["left", "linear", "right", "hull"])}))
+    cases = par.pmap(_variant_record, items, chunksize=2)
+    rej = ctx.trace("Trace_Pipeline", cases, chunk=200)
+    # in the Z-method variant the heights are monotone by C10 and there is no worst filter; only the mapping clauses apply
+    mism = [{"case": cid, "clause": vs[0][0], "detail": [str(v)[:120] for v in vs[0][1:3]]} for cid, vs in rej.items()]
+    ctx.extra.setdefault("growth", {})["PipelineVariants"] = {
+        "pipelines": len(cases), "reaching_map": sum(1 for c in cases if c["events"][-1]["stage"] == "map"),
+        "mismatches": len(mism), "first_mismatches": mism[:3],
+        "what": "demos/zmethod.py (rdp -> zmethod.knees with x_max / y_range of the original curve -> knees > 0 -> mapping) and "
+                "demos/fusion.py (every reduced point is a candidate -> worst -> corner -> cluster -> mapping) judged by the "
+                "Trace_Pipeline invariants with their own stage order; beyond C08's statement, note only"}
+    for m in mism[:3]:
+        print("GROWTH-MISMATCH module=PipelineVariants %s" % m)
+    return mism
